@@ -263,6 +263,12 @@ def reorderGlyphs(font: ttLib.TTFont, new_glyph_order: List[str]):
     if not_loaded:
         raise ValueError(f"Everything should be loaded, following aren't: {not_loaded}")
 
+    # The CFF/CFF2 top dict is loaded lazily and names its charstrings with the
+    # glyph order in effect at that time: load it before the order changes.
+    for tag in ["CFF ", "CFF2"]:
+        if tag in font:
+            font[tag].cff.topDictIndex[0].CharStrings
+
     font.setGlyphOrder(new_glyph_order)
 
     coverage_containers = {"GDEF", "GPOS", "GSUB", "MATH"}
